@@ -199,7 +199,16 @@ def concrete_leaf(a, v):
     if k == "bytes":
         if s == "huge":
             return {"$bytes": base64.b64encode(bytes(i % 251 for i in range(70000))).decode()}
-        return {"$bytes": base64.b64encode(bytes(range(1, n + 1))).decode()}
+        if a["loc"] == "body" and s == "plain":
+            return {"$bytes": base64.b64encode(bytes(range(1, n + 1))).decode()}
+        # outside a JSON body the raw bytes are the text of the parameter: n BYTES of text in the string shapes
+        if s == "uni":
+            base = list(LETTERS[:n - 1])
+            base[(n - 1) // 2] = "é"
+            text = "".join(base)
+        else:
+            text = concrete_leaf(dict(a, kind="string", rule="none"), v)
+        return {"$bytes": base64.b64encode(text.encode()).decode()}
     # string
     if s == "empty":
         return ""
@@ -411,10 +420,21 @@ def method_design(idx, shape, types, extra=None):
         if a["mode"] == "treq":
             resp.setdefault("headersRequired", []).append(n)
     responses = [resp]
-    if shape.get("tagged"):
+    layout = tags_of(shape)
+    if layout == 1:
         tagged = json.loads(json.dumps(resp))
         tagged.update({"status": 201, "tagName": "r1", "tagValue": "abc"})
         responses = [tagged, resp]
+    elif layout >= 2:
+        # two tagged responses (HTTPTransport.tla TaggedResponses), each with header / cookie names of its own, so that
+        # the response that answered shows in the locations too
+        def tagged_resp(status, attr):
+            t = json.loads(json.dumps(resp))
+            t.update({"status": status, "tagName": attr, "tagValue": "abc"})
+            t["headers"] = {k: x + resp_suffix(status) for k, x in t["headers"].items()}
+            t["cookies"] = {k: x + resp_suffix(status) for k, x in t["cookies"].items()}
+            return t
+        responses = [tagged_resp(201, "r1"), tagged_resp(202, "r2"), resp] if layout == 2 else [resp, tagged_resp(202, "r2"), tagged_resp(201, "r1")]
     http["responses"] = responses
     m = {"name": mname, "http": http}
     # half of the methods with several attributes declare its payload / result as a NAMED user type (Payload(T)) instead
@@ -462,8 +482,22 @@ def used_types(design):
     return [t for t in types if t["name"] in keep]
 
 
+def tags_of(v):
+    """layout of the tagged responses (HTTPTransport.tla cfg.tags): 0 none, 1 one, 2 / 3 two in either declaration order"""
+    t = v.get("tags")
+    return t if t is not None else (1 if v.get("tagged") else 0)
+
+
+def resp_suffix(status):
+    """wire-name suffix of the header / cookie mappings of a tagged response in the two-tag layouts"""
+    return "-%d" % status if status in (201, 202) else ""
+
+
 def shape_key(v):
-    return core.canon({"pa": v["pa"], "ra": v["ra"], "tagged": v.get("tagged", False)})
+    k = {"pa": v["pa"], "ra": v["ra"], "tagged": bool(v.get("tagged", False))}
+    if tags_of(v) >= 2:
+        k["tags"] = tags_of(v)
+    return core.canon(k)
 
 
 def body_struct_keys(sh):
@@ -806,8 +840,9 @@ def body_keys(body):
     return {k for k, x in d.items() if x is not None} if isinstance(d, dict) else set()
 
 
-def observed_where(names_locs, wire, path_route=None):
-    """For each attribute name: the set of wire locations that carry its element.  names_locs: (name, location[, shape])."""
+def observed_where(names_locs, wire, path_route=None, suffix=""):
+    """For each attribute name: the set of wire locations that carry its element.  names_locs: (name, location[, shape]);
+    suffix: of the header / cookie names of the response that is expected to answer (resp_suffix)."""
     out = []
     q = wire.get("query") or {}
     h = {k.lower(): v for k, v in (wire.get("headers") or {}).items()}
@@ -819,9 +854,9 @@ def observed_where(names_locs, wire, path_route=None):
             s.add("query")                                    # (the envelope never puts another query parameter next to it)
         if ELEM["query"](n) in q or any(k.startswith(ELEM["query"](n) + "[") for k in q):     # qa1=.. / qa1[key]=..
             s.add("query")
-        if ELEM["header"](n).lower() in h:
+        if (ELEM["header"](n) + suffix).lower() in h:
             s.add("header")
-        if ELEM["cookie"](n) in c:
+        if ELEM["cookie"](n) + suffix in c:
             s.add("cookie")
         if bk and n in bk:
             s.add("body")
